@@ -531,6 +531,12 @@ def field_of(e, name):
         return field_of(e[1], name)
     if e[0] == "agg":
         return dict(e[3]).get(name)
+    if e[0] == "phi":
+        # a join of struct values: the field is the join of the alternatives' fields (one value if they all agree)
+        vals = [field_of(x, name) for x in e[1] if not (isinstance(x, tuple) and x and x[0] == "loop")]
+        if vals and all(v is not None for v in vals):
+            uniq = {nosite(v) for v in vals}
+            return vals[0] if len(uniq) == 1 else ("phi", frozenset(vals))
     return ("field", e, name)
 
 
